@@ -61,7 +61,9 @@ def pick_len(rng, alg, big=False):
     return rng.randrange(0, 65536)
 
 
-def pick_place(rng):
+def pick_place(rng, ln=None):
+    if ln == 0 and rng.random() < 0.3:
+        return "n"          # (NULL, 0): the driver uses a real pointer instead on the isal_ entry points
     r = rng.random()
     if r < 0.4:
         return "e"
@@ -108,7 +110,7 @@ def random_behaviour(rng, alg, fam, with_rejects=0.0, reuse=True, midflush=True)
                 cmds.append("hsub %d %d %d %d %d %s" % (rng.choice(range(nctx)), rng.choice([0, 1, 2, 3]), b, off, ln, pick_place(rng)))
             else:               # continue a context regardless of its state (fresh/complete -> must be refused)
                 cmds.append("hsubw %d %d %d %d %d %s" % (rng.choice(range(nctx)), rng.choice([0, 2]), b, off, ln, pick_place(rng)))
-        cmds.append("hsubw %d %d %d %d %d %s" % (c, flags, b, off, ln, pick_place(rng)))
+        cmds.append("hsubw %d %d %d %d %d %s" % (c, flags, b, off, ln, pick_place(rng, ln)))
         if not pend[c]:
             del pend[c]
             msgs_left[c] -= 1
@@ -116,6 +118,8 @@ def random_behaviour(rng, alg, fam, with_rejects=0.0, reuse=True, midflush=True)
                 live.remove(c)
         if midflush and rng.random() < 0.08:
             cmds.append("hflush")
+        if rng.random() < 0.05:     # the caller relocates a context that is not in flight (the driver skips it otherwise)
+            cmds.append("hmove %d" % rng.randrange(nctx))
     cmds.append("hdrain %d" % (L + 34))
     cmds.append("hend")
     return cmds
